@@ -135,6 +135,11 @@ def run_impl(case, collect_model_steps=True):
                     obs.append({"hash": hashlib.sha256(open(p, "rb").read()).hexdigest()})
                 else:
                     obs.append({"absent": True})
+            elif do == "validate":
+                msteps.append(dict(st))
+                from harness import validator
+                why = validator.validate(w.path(st["path"]), emdfile._PROGRAM_NAME, emdfile._USER_NAME, st.get("legit", ()))
+                obs.append({"valid": why is None} if why is None else {"valid": False, "why": why})
             elif do == "info":
                 msteps.append(dict(st))
                 p = w.path(st["path"])
